@@ -10,6 +10,7 @@ import (
 	"strings"
 	"time"
 
+	"github.com/siyul-park/uniflow/pkg/spec"
 	"github.com/siyul-park/uniflow/pkg/types"
 	"verif/harness/gal"
 )
@@ -159,7 +160,7 @@ func (g *g16) structIn(depth int, used map[string]bool, inlined bool) *ty16 {
 			hasInlineMap = true
 			g.hist["inline-map"]++
 		case m == 6:
-			f.alias = fmt.Sprintf("f%d", i)
+			f.alias = fmt.Sprintf("f_%d", i)
 			if used[f.alias] {
 				continue
 			}
@@ -167,7 +168,7 @@ func (g *g16) structIn(depth int, used map[string]bool, inlined bool) *ty16 {
 			f.mode = "FOmit"
 			tag = `json:",omitempty"`
 		default:
-			f.alias = fmt.Sprintf("f%d", i) // snake case of the field name
+			f.alias = fmt.Sprintf("f_%d", i) // snake case of the field name
 			if used[f.alias] {
 				continue
 			}
@@ -297,6 +298,8 @@ func (g *g16) fill(t *ty16, v reflect.Value, depth int) {
 			d = 0
 		} else if r.Intn(3) == 0 {
 			d += time.Duration(r.Intn(1_000_000))
+		} else if r.Intn(8) == 0 {
+			d = time.Duration(1 + r.Intn(999_999)) // below a millisecond
 		}
 		v.SetInt(int64(d))
 	case "ptr":
@@ -380,6 +383,9 @@ func gvalOf(v reflect.Value) string {
 	switch {
 	case rt == tTime:
 		tm := v.Interface().(time.Time)
+		if tm.IsZero() {
+			return "XTime0"
+		}
 		_, off := tm.Zone()
 		return fmt.Sprintf("(XTime %s %s)", gal.Z(tm.UnixNano()), gal.Bool(off == 0 && tm.Location() == time.UTC))
 	case rt == tDur:
@@ -393,9 +399,9 @@ func gvalOf(v reflect.Value) string {
 	case reflect.Uint, reflect.Uint8, reflect.Uint16, reflect.Uint32, reflect.Uint64:
 		return "(XUint " + fmt.Sprintf("%d%%Z", v.Uint()) + ")"
 	case reflect.Float32:
-		return fmt.Sprintf("(XFloat %d%%Z)", math.Float32bits(float32(v.Float())))
+		return fmt.Sprintf("(XF32 %d%%Z)", math.Float32bits(float32(v.Float())))
 	case reflect.Float64:
-		return fmt.Sprintf("(XFloat %d%%Z)", math.Float64bits(v.Float()))
+		return fmt.Sprintf("(XF64 %d%%Z)", math.Float64bits(v.Float()))
 	case reflect.String:
 		return "(XStr " + gal.Bytes([]byte(v.String())) + ")"
 	case reflect.Pointer:
@@ -552,9 +558,78 @@ func equalModuloKnown(a, b reflect.Value) bool {
 		}
 		return true
 	case reflect.Float32, reflect.Float64:
-		return math.Float64bits(a.Float()) == math.Float64bits(b.Float())
+		return a.Float() == b.Float() // as reflect.DeepEqual does: -0 == +0
 	}
 	return reflect.DeepEqual(a.Interface(), b.Interface())
+}
+
+// nullPointee: a non-nil pointer whose pointee encodes as null (a nil pointer or a nil open value,
+// possibly behind more pointers): the encoding cannot tell it from a nil pointer.
+func encodesNull(v reflect.Value) bool {
+	switch v.Kind() {
+	case reflect.Pointer:
+		return v.IsNil() || encodesNull(v.Elem())
+	case reflect.Interface:
+		return v.IsNil()
+	}
+	return false
+}
+
+func walk16(v reflect.Value, f func(reflect.Value) bool) bool {
+	if f(v) {
+		return true
+	}
+	switch v.Kind() {
+	case reflect.Pointer, reflect.Interface:
+		return !v.IsNil() && walk16(v.Elem(), f)
+	case reflect.Slice, reflect.Array:
+		for i := 0; i < v.Len(); i++ {
+			if walk16(v.Index(i), f) {
+				return true
+			}
+		}
+	case reflect.Map:
+		for _, k := range v.MapKeys() {
+			if walk16(v.MapIndex(k), f) {
+				return true
+			}
+		}
+	case reflect.Struct:
+		for i := 0; i < v.NumField(); i++ {
+			if walk16(v.Field(i), f) {
+				return true
+			}
+		}
+	}
+	return false
+}
+
+func hasNullPointee(v reflect.Value) bool {
+	return walk16(v, func(x reflect.Value) bool {
+		return x.Kind() == reflect.Pointer && !x.IsNil() && encodesNull(x.Elem())
+	})
+}
+
+// hasTinyDuration: a non-zero time.Duration below one millisecond (it encodes as 0 milliseconds)
+func hasTinyDuration(v reflect.Value) bool {
+	return walk16(v, func(x reflect.Value) bool {
+		return x.Type() == tDur && x.Int() != 0 && time.Duration(x.Int()).Milliseconds() == 0
+	})
+}
+
+// hasByteList: an open value holding a non-empty list whose elements are all uint8 (its generic view is a byte string)
+func hasByteList(v reflect.Value) bool {
+	return walk16(v, func(x reflect.Value) bool {
+		if x.Kind() != reflect.Slice || x.Type().Elem().Kind() != reflect.Interface || x.Len() == 0 {
+			return false
+		}
+		for i := 0; i < x.Len(); i++ {
+			if e := x.Index(i); e.IsNil() || e.Elem().Kind() != reflect.Uint8 {
+				return false
+			}
+		}
+		return true
+	})
 }
 
 func roundTrip16(t *ty16, v reflect.Value) (enc types.Value, back reflect.Value, fail string) {
@@ -582,6 +657,9 @@ func case16(g *g16) Case {
 	v := reflect.New(t.rt).Elem()
 	g.fill(t, v, 4)
 	g.hist["top-"+t.kind]++
+	if !strings.Contains(t.g, "FInline") {
+		g.hist["inline-free"]++
+	}
 	if t.hasAny {
 		g.hist["has-any"]++
 	}
@@ -609,6 +687,7 @@ func case16(g *g16) Case {
 		} else if !t.hasAny && !reflect.DeepEqual(v.Interface(), back.Interface()) {
 			if equalModuloKnown(v, back) {
 				known = "F-C16-a"
+				fail = "decoded value differs by nil vs empty container, sub-millisecond time or time zone only"
 			} else {
 				fail = fmt.Sprintf("decoded value differs: %#v instead of %#v", back.Interface(), v.Interface())
 			}
@@ -633,10 +712,119 @@ func case16(g *g16) Case {
 			}
 		}
 	}
+	if fail != "" && hasNullPointee(v) {
+		known = "F-C16-b"
+	} else if fail != "" && known == "" && hasTinyDuration(v) {
+		known = "F-C16-d"
+	}
 	gcase := fmt.Sprintf("(%s, %s, %s, %s)", t.g, gvalOf(v), encG, backG)
 	in := map[string]any{"type": t.rt.String(), "value": fmt.Sprintf("%#v", v.Interface())}
 	nt := strings.Count(t.g, "(G") >= 3
 	return Case{Gallina: gcase, Input: in, Nontrivial: nt, OracleFail: fail, Known: known}
+}
+
+type spec16 struct {
+	spec.Meta `json:",inline"`
+	A         int            `json:"a"`
+	B         []string       `json:"b,omitempty"`
+	C         map[string]any `json:"c,omitempty"`
+	D         *int           `json:"d"`
+}
+
+// specCase16: a typed node spec goes typed -> generic document -> typed with every field intact,
+// and a generic document keeps arbitrary extra fields (nulls included) through encode / decode.
+func specCase16(g *g16) (fail string) {
+	defer func() {
+		if p := recover(); p != nil {
+			fail = fmt.Sprintf("spec path panicked: %v", p)
+		}
+	}()
+	r := g.r
+	src := &spec16{Meta: spec.Meta{ID: uid(1 + r.Intn(200)), Kind: "k", Namespace: "n", Name: strs16[r.Intn(len(strs16))]}, A: r.Intn(9) - 4}
+	if r.Intn(2) == 0 {
+		src.Annotations = map[string]string{"x": "y"}
+	}
+	if r.Intn(2) == 0 {
+		src.Env = map[string]spec.Value{"E": {Name: "v", Data: g.dyn(2)}}
+	}
+	if r.Intn(2) == 0 {
+		src.Ports = map[string][]spec.Port{"out": {{Name: "t", Port: "in"}, {ID: uid(3), Port: "in"}}}
+	}
+	if r.Intn(2) == 0 {
+		src.B = []string{"p", ""}
+	}
+	if r.Intn(2) == 0 {
+		if m, ok := g.dyn(2).(map[string]any); ok && len(m) > 0 {
+			src.C = m
+		}
+	}
+	if r.Intn(2) == 0 {
+		d := r.Intn(5)
+		src.D = &d
+	}
+	u := &spec.Unstructured{}
+	if err := spec.As(src, u); err != nil {
+		return "typed -> generic failed: " + err.Error()
+	}
+	for _, k := range []string{"a", "d"} {
+		if _, ok := u.Fields[k]; !ok && !(k == "d" && src.D == nil) {
+			return fmt.Sprintf("generic document lost field %q", k)
+		}
+	}
+	back := &spec16{}
+	if err := spec.As(u, back); err != nil {
+		return "generic -> typed failed: " + err.Error()
+	}
+	e1, _ := types.Marshal(src)
+	e2, _ := types.Marshal(back)
+	if !types.Equal(e1, e2) {
+		return fmt.Sprintf("typed -> generic -> typed changed the spec: %v instead of %v", e2, e1)
+	}
+	// pointers to a type that marshals itself as text (outside the model's universe)
+	tm := time.Unix(int64(r.Intn(1_000_000)), 0).UTC()
+	type withTimes struct {
+		T *time.Time            `json:"t"`
+		M map[string]*time.Time `json:"m,omitempty"`
+	}
+	wt := withTimes{M: map[string]*time.Time{"a": nil}}
+	if r.Intn(2) == 0 {
+		wt.T = &tm
+		wt.M["b"] = &tm
+	}
+	w1, err := types.Marshal(wt)
+	if err != nil {
+		return "encoding pointers to time.Time failed: " + err.Error()
+	}
+	var wt2 withTimes
+	if err := types.Unmarshal(w1, &wt2); err != nil {
+		return "decoding pointers to time.Time failed: " + err.Error()
+	}
+	if w2, _ := types.Marshal(wt2); !types.Equal(w1, w2) {
+		return fmt.Sprintf("pointers to time.Time changed through encode/decode: %v instead of %v", w2, w1)
+	}
+	// a generic document with arbitrary extra fields
+	doc := &spec.Unstructured{Meta: src.Meta, Fields: map[string]any{}}
+	for i := 0; i < 1+r.Intn(3); i++ {
+		doc.Fields[mapKeys16[r.Intn(len(mapKeys16))]] = g.dyn(2)
+	}
+	d1, err := types.Marshal(doc)
+	if err != nil {
+		return "encoding a generic document failed: " + err.Error()
+	}
+	doc2 := &spec.Unstructured{}
+	if err := types.Unmarshal(d1, doc2); err != nil {
+		return "decoding a generic document failed: " + err.Error()
+	}
+	d2, _ := types.Marshal(doc2)
+	if !types.Equal(d1, d2) {
+		return fmt.Sprintf("a generic document changed through encode/decode: %v instead of %v", d2, d1)
+	}
+	for k := range doc.Fields {
+		if _, ok := doc2.Fields[k]; !ok {
+			return fmt.Sprintf("a generic document lost its extra field %q (value %#v)", k, doc.Fields[k])
+		}
+	}
+	return ""
 }
 
 func runC16(seed int64, n int, tier string) *Result {
@@ -648,12 +836,17 @@ func runC16(seed int64, n int, tier string) *Result {
 		OkFn:     "c16ok",
 		Rule: "a Go type built reflectively (scalars of every width, string, []byte, time.Time, time.Duration, pointers, slices, arrays, string-keyed maps, structs with json tags: named / omitempty / inline / untagged, any; depth <= 3) " +
 			"and a random value of it (nil and empty containers, nil pointers, boundary integers, -0 and Inf, open fields holding nil / scalars / []any / map[string]any); types.Marshal, types.Unmarshal into a fresh value; " +
-			"observed: the engine value and the decoded Go value; directly checked: no error, no panic, re-encoding equal, DeepEqual for types without open fields, and no panic through the JSON form; non-trivial = three or more type constructors; distinct by rendered case",
+			"observed: the engine value and the decoded Go value; directly checked: no error, no panic, re-encoding equal, DeepEqual for types without open fields, and no panic through the JSON form; every tenth case also runs a typed node spec (inline Meta, env, ports, omitempty and pointer fields) typed -> Unstructured -> typed and a generic document with random extra fields (nulls included) through encode/decode; non-trivial = three or more type constructors; distinct by rendered case",
 		Hist: map[string]int{},
 	}
 	g := &g16{r: r, hist: res.Hist}
 	for i := 0; i < n; i++ {
-		res.Cases = append(res.Cases, case16(g))
+		c := case16(g)
+		if c.OracleFail == "" && i%10 == 0 {
+			c.OracleFail = specCase16(g)
+			res.Hist["spec-path"]++
+		}
+		res.Cases = append(res.Cases, c)
 	}
 	return res
 }
